@@ -41,6 +41,21 @@ class PROP(E2E):
                 yield dict(proto=proto, slave=rng.randrange(256), req=req, reply=("none",), typed=typed, W=W,
                            allcomp=(rng.random() < 0.03 and mb.spec_req_size(req) <= 5))
 
+            # the context is used again after an earlier call failed in the middle of writing (or was abandoned there): the
+            # new request must still go out as its own spec frame, after whatever the earlier call left in the write buffer
+            for _ in range(n // 6):
+                req = mb.rnd_req(rng)
+                if mb.spec_req_size(req) > 253 or (proto == "rtu" and not cligen.rtu_supported_req(req)):
+                    continue
+                pre = []
+                for _ in range(rng.randrange(1, 3)):
+                    preq = mb.rnd_req(rng, rng.choice(["RC", "RHR", "WSR", "WSC", "MWR", "RSI"]))
+                    k = rng.randrange(0, len(cligen.frame(proto, 0, 0, mb.spec_req_pdu(preq))))     # the fault hits while this frame is being written
+                    mode = rng.choice(["werr", "zero", "abandon"])
+                    acc = ("a%d," % k) if k else ""
+                    pre.append(cligen.call_op(preq, W=acc + {"werr": "e:TimedOut", "zero": "z", "abandon": "p"}[mode], drop="0" if mode == "abandon" else "-"))
+                yield dict(proto=proto, slave=rng.randrange(256), req=req, reply=("none",), pre=pre)
+
     def oracle(self, c):
         m = c.meta
         st = m.get("stage", 0)
@@ -49,7 +64,10 @@ class PROP(E2E):
         req = mb.parse_req(m["req"])
         if st == 0:
             res, w = cligen.res_and_w(cligen.split_results(c.impl)[-1])
-            want = cligen.frame(m["proto"], 0, m["slave"], mb.spec_req_pdu(req))
+            want = cligen.frame(m["proto"], m.get("npre", 0), m["slave"], mb.spec_req_pdu(req))
+            if m.get("npre"):
+                return None if w.endswith(want) else "after %d failed call(s) the client wrote ...%s for %s to slave %d; its spec frame is %s" % (
+                    m["npre"], w.hex()[-80:], m["req"][:50], m["slave"], want.hex()[:80])
             return None if w == want else "client wrote %s for %s to slave %d; spec frame is %s" % (w.hex()[:80], m["req"][:50], m["slave"], want.hex()[:80])
         if st == 1:
             cr = canon_req(req)
